@@ -39,11 +39,11 @@ var depends = map[string][]string{
 	"C02": {"C13", "C17"},
 	"C03": {"C02", "C13", "C17"},
 	"C04": {"C02", "C13", "C14", "C17"},
-	"C05": {},
+	"C05": {"C17"},
 	"C06": {"C15", "C08"},
 	"C07": {},
-	"C08": {},
-	"C09": {},
+	"C08": {"C15"},
+	"C09": {"C10"},
 	"C10": {"C09", "C15"},
 	"C11": {"C04", "C12", "C14", "C17"},
 	"C12": {},
